@@ -62,12 +62,13 @@ func schedCase(rng *rand.Rand, w *Writer, suite string, kind string, canonical i
 	pop := fmt.Sprintf("%x:%x:%s:%s:%s:%x:%d:%d:%d:%d", uint64(d.eui.ToInt64()), d.addr, hx(d.appkey), hx(d.nwk), hx(d.app),
 		uint64(d.appeui.ToInt64()), d.fup0, d.fdn0, b01(d.relaxed), int(state))
 	// queued downstream data, so that answers carry a payload
-	if (suite == "schedC07" || suite == "schedC03") && kind != "join-copies" && kind != "forged-join" && canonical != 3 && rng.Intn(4) == 0 {
+	releaseCase := suite == "schedC07" && kind == "consecutive" && canonical == 2 && nh == 2
+	if releaseCase || ((suite == "schedC07" || suite == "schedC03") && kind != "join-copies" && kind != "forged-join" && canonical != 3 && rng.Intn(4) == 0) {
 		// the oldest queued message cannot be marshalled (a port the frame format has no room for; the service refuses such
 		// ports, the table does not): its encoder must not use up - or hand back - a frame counter while another works
 		h.submit(d, uint8([]int{0, 224, 255}[rng.Intn(3)]), rng.Intn(2) == 0, randBytes(rng, 1+rng.Intn(20)))
 		w.Count("sched.unmarshallable-queued")
-		if rng.Intn(2) == 0 {
+		if releaseCase || rng.Intn(2) == 0 {
 			h.submit(d, uint8(1+rng.Intn(200)), rng.Intn(2) == 0, randBytes(rng, 1+rng.Intn(20)))
 		}
 	} else if suite == "schedC06" {
@@ -253,6 +254,22 @@ func schedCase(rng *rand.Rand, w *Writer, suite string, kind string, canonical i
 		sched = []bool{true, false, true, false}
 		for i := 0; i < 26; i++ {
 			sched = append(sched, true)
+		}
+		if releaseCase {
+			// the first handler gets the message that cannot be marshalled: it runs up to its buffer read and one operation
+			// further (nothing, on this code: it has stopped; a counter reservation, on code that reserves first), then the
+			// second handler runs from start to end, then the first one finishes (and must not hand a counter back)
+			sched = nil
+			k := 10
+			if confirmedUp {
+				k++
+			}
+			for i := 0; i < k; i++ {
+				sched = append(sched, false)
+			}
+			for i := 0; i < 24; i++ {
+				sched = append(sched, true)
+			}
 		}
 	default:
 		if rng.Intn(2) == 0 {
